@@ -8,6 +8,7 @@ running cell unconditionally is `register` (enable), which is exactly the docume
 The absence of any panic over whole histories is Spec.Core's C08 clause on the real loop.
 -/
 import Verif.Model.Loop
+import Verif.Inv.LifeInv
 
 namespace Verif.Props.C08
 open Verif.Loop Verif.Token
@@ -32,5 +33,43 @@ theorem register_of_running_panics (k : Nat) (tok : Tok) (s : St) (h : s.running
 theorem other_source_not_deferred (k k' : Nat) (s : St) (h : s.running = some k') (hne : k ≠ k') :
     (s.running == some k) = false := by
   simp [h, Ne.symm hne]
+
+/-! ### the whole loop: no stale lifecycle entry -/
+
+open Verif.Loop in
+/-- **After every history** — callbacks removing, disabling, re-inserting (also into the slot just vacated), failing
+    registrations, errors — not aborted by a panic, no generation wrapped, no object inserted twice: every token in the
+    additional-lifecycle set resolves to an occupied slot whose source has lifecycle hooks … -/
+theorem lifecycle_tokens_resolve (ops : List Op) (hab : (run ops).aborted = false)
+    (hna : (run ops).aliased = false) (hnd : (run ops).dupInsert = false) :
+    ∀ t ∈ (run ops).life, ∃ k, slotDisp (run ops) t = some k ∧ lifeFlag (run ops) k = true :=
+  Verif.Inv.LifeInv.lifecycle_tokens_resolve ops hab hna hnd
+
+open Verif.Loop in
+/-- … so the `before_sleep` walk that opens the next dispatch cannot reach `unreachable!()` … -/
+theorem next_dispatch_before_sleep_does_not_panic (ops : List Op) (hab : (run ops).aborted = false)
+    (hna : (run ops).aliased = false) (hnd : (run ops).dupInsert = false) :
+    ¬ Verif.Inv.LifeInv.isUnreachable (forEachM (run ops).life beforeSleep (run ops)) :=
+  Verif.Inv.LifeInv.next_before_sleep_walk_fine ops hab hna hnd
+
+open Verif.Loop in
+/-- … nor can the `before_handle_events` walk, whatever the poll returned -/
+theorem next_dispatch_before_handle_does_not_panic (ops : List Op) (evs : List Verif.Kernel.Event)
+    (hab : (run ops).aborted = false) (hna : (run ops).aliased = false) (hnd : (run ops).dupInsert = false) :
+    ¬ Verif.Inv.LifeInv.isUnreachable (forEachM (run ops).life (beforeHandle evs) (run ops)) :=
+  Verif.Inv.LifeInv.next_before_handle_walk_fine ops evs hab hna hnd
+
+open Verif.Loop in
+/-- non-vacuity: a lifecycle source that, on an event of its second sub-source, removes itself and inserts another
+    lifecycle source into the slot it has just vacated; the hypotheses hold and the set has exactly the new entry -/
+def selfRemoveAndReuse : List Op :=
+  [.c (.newCustom 1 2 true), .c (.insert 1), .c (.newCustom 2 1 true),
+   .script 1 0 { ops := [.remove 1, .insert 2], ret := .cont },
+   .c (.write 1001 1), .dispatch, .c (.write 2000 1), .dispatch, .dispatch]
+
+open Verif.Loop in
+example : (run selfRemoveAndReuse).aborted = false ∧ (run selfRemoveAndReuse).aliased = false ∧
+    (run selfRemoveAndReuse).dupInsert = false ∧ (run selfRemoveAndReuse).life.length = 1 ∧
+    (run selfRemoveAndReuse).log.contains (.cb 2 (.sub 0)) = true := by decide +kernel
 
 end Verif.Props.C08
